@@ -62,7 +62,14 @@ def run_config(c, start, evs, host, spied, live_spy=False, live_trace=False, bui
                     hsm.live_spy, hsm.live_trace = live_spy, live_trace
                 hsm.register_live_spy_callback(lambda line: None)
                 hsm.register_live_trace_callback(lambda line: None)
-            fns = build(log, spied=spied, counter=hsm._vp_count)
+            c._host_has_parent_callback = hasattr(hsm, "register_parent")
+            try:
+                fns = build(log, spied=spied, counter=hsm._vp_count)
+            finally:
+                c._host_has_parent_callback = False
+            if getattr(c, "parent_via_callback", False) and hasattr(hsm, "register_parent"):
+                for i, f in fns.items():
+                    hsm.register_parent(f, fns[c.parent[i]] if c.parent[i] else hsm.top)
             inv = {getattr(getattr(f, "__wrapped__", f), "__name__"): i for i, f in fns.items()}
             hsm.start_at(fns[start])
             per_step.append(visible(log))
@@ -99,7 +106,14 @@ def run_config(c, start, evs, host, spied, live_spy=False, live_trace=False, bui
 
                     def counter():
                         pass
-                    fns = build(log, spied=spied, counter=counter)
+                    c._host_has_parent_callback = True
+                    try:
+                        fns = build(log, spied=spied, counter=counter)
+                    finally:
+                        c._host_has_parent_callback = False
+                    if getattr(c, "parent_via_callback", False):
+                        for i, f in fns.items():
+                            ao.register_parent(f, fns[c.parent[i]] if c.parent[i] else ao.top)
                     inv = {getattr(getattr(f, "__wrapped__", f), "__name__"): i for i, f in fns.items()}
                     ao.start_at(fns[start])
                     if live_at >= 1:
@@ -179,8 +193,8 @@ def explore_chatty_start(run):
     """C18 with a start step that logs several hundred spy lines (an entry action that scribbles): with live output on, the same
     actions run and the chart ends in the same state as with live output off; start_at returns (oracle only)"""
     rng = run.rng
-    for n_lines in (rng.choice([120, 200]), rng.choice([248, 249, 250]), rng.choice([251, 260, 400])):
-        first = rng.random() < 0.7
+    big = rng.choice([251, 260, 400])
+    for n_lines, first in ((rng.choice([120, 200]), rng.random() < 0.7), (rng.choice([248, 249, 250]), rng.random() < 0.7), (big, True), (big, False)):
         ref = run_chatty(n_lines, False, first)
         got = run_chatty(n_lines, True, first)
         cj = {"probe": "chatty-start", "lines": n_lines, "first_active_object": first}
@@ -212,6 +226,9 @@ def explore(run, n_random, with_active=True):
     rng = run.rng
     for _ in range(n_random):
         c, start, evs = gen(rng)
+        if rng.random() < 0.3:
+            c.parent_via_callback = True          # on hosts that offer it the handlers ask `chart.parent_callback()` for their parent
+            run.count("handlers ask the chart for their parent (register_parent style) on queued / active hosts")
         query = rng.random() < 0.5
         ref_steps, ref_final, ref_err = run_config(c, start, evs, "plain", False)
         cj = {"chart": c.to_json(), "start": start, "events": evs, "query": query}
